@@ -87,19 +87,48 @@ def o1_content_addressed(steps, cfg, history):
     return out
 
 
-def o3_no_unsaved_loss(steps, cfg, history):
+def o1r_recheck_restores(steps, cfg, history):
+    """C01, first sentence, judged on the history itself: after a successful `recheck` a tracked target that was absent
+    before the command (or any target, with --force) yields exactly the bytes of the cache object of its recorded digest"""
+    out = []
+    for st in steps:
+        c = st['cmd']
+        pre, post = st['pre'], st['post']
+        if c['op'] != 'recheck' or st['rc'] != 0 or pre is None or post is None:
+            continue
+        for t in c['targets']:
+            r = post.recs.get(t)
+            if not r or not r['cur'] or t not in pre.recs:
+                continue
+            o = post.cache.get(rec_addr(r, t))
+            if not o or o['bytes'] is None:
+                continue                    # nothing to restore from: recheck reports it, C01 does not apply
+            if not (c.get('force') or read_through(pre, t) is None):
+                continue
+            got = read_through(post, t)
+            if got != o['bytes']:
+                strip_coll = got is not None and hashref.strip_crlf(got) == hashref.strip_crlf(o['bytes'])
+                out.append((f"step {st['i']} {show_cmd(c)}: {t} {'is absent' if got is None else f'has {len(got)} other bytes'} after recheck "
+                            f"(the object of its recorded version has {len(o['bytes'])} bytes)", {'kind': 'strip-collision'} if strip_coll else {'kind': 'recheck-did-not-restore'}))
+    return out
+
+
+def o3_no_unsaved_loss(steps, cfg, history, include_failed=False):
     """C03: after any command other than remove (and without --force) every file that existed before still has its
     bytes at the path, at the requested move destination, or in the cache under the digest recorded for the path."""
     out = []
     for st in steps:
         c = st['cmd']
         pre, post = st['pre'], st['post']
-        if pre is None or post is None or c['op'] in ('write', 'delete', 'remove') or is_force(c) or st['rc'] not in (0, 1):
+        if pre is None or post is None or c['op'] in ('write', 'delete', 'remove') or is_force(c) or (st['rc'] not in (0, 1) and not include_failed):
             continue
         for p, k in pre.ws.items():
             b = read_through(pre, p)
             if b is None:
                 continue
+            base = p.rsplit('/', 1)[-1]
+            if base.startswith('.') and base.endswith('.xvc-tmp'):
+                continue            # xvc's own temporary copy left by an earlier failed command: not the user's data
             if read_through(post, p) == b:
                 continue
             if c['op'] == 'move' and read_through(post, c['dst']) == b:
@@ -473,6 +502,92 @@ def restore_hook_factory(results, every_step=False, old_commits=False, restore_v
     return hook
 
 
+# ------------------------------------------------------------------------------------------------ I/O faults
+
+def io_fault_histories(seed, n):
+    """Histories in which ONE xvc command meets an I/O fault while it writes a data file: every write beyond a file size
+    limit fails with EFBIG (like ENOSPC / a quota), or the hidden temporary name of a workspace copy is occupied.  The
+    fault can only hit copies of data files (records are tiny).  Judged by the oracles alone: the model has no I/O errors."""
+    import random
+    rng = random.Random(f'io-fault-{seed}')
+    out = []
+    for i in range(n):
+        e = rng.choice(['bin', 'dat', ''])
+        nm = lambda s: s + ('.' + e if e else '')
+        a, b, c2 = nm('a'), nm('d/b'), nm('c')
+        big = lambda t: bytes(f'{t}-{i}-', 'ascii') + bytes(rng.getrandbits(8) for _ in range(4096)) * rng.randint(40, 90) + b'\x00end'    # 160..370 KiB, binary
+        X, Y = big('X'), big('Y')
+        small = bytes(f'small-{i}\n', 'ascii')
+        cfg = {'algo': rng.choice([1, 2, 3]), 'method': rng.choice(['copy', 'symlink', 'hardlink']), 'tob': 'binary'}     # hashlib algorithms only
+        W_ = lambda p, by: {'op': 'write', 'path': p, 'bytes': by, 'cname': 'big', 'no_table': True}
+        h = [W_(a, X), W_(b, small), T([a, b], no_parallel=rng.random() < 0.5)]
+        if rng.random() < 0.5:
+            h += [W_(a, Y), CI([a])]                         # a second version of the big file
+        kind = rng.choice(['recheck-copy', 'untrack', 'untrack', 'untrack-restore', 'track-new', 'carryin', 'copy', 'move-method', 'recheck-deleted'])
+        fault = {'fsize_limit': rng.choice([64, 100, 128])} if rng.random() < 0.7 else {'tmp_blocked': [a, c2]}
+        if kind == 'recheck-copy':
+            cmd = RC([a, b], method='copy')
+        elif kind == 'recheck-deleted':
+            h.append({'op': 'delete', 'path': a}); cmd = RC([a, b])
+        elif kind == 'untrack':
+            cmd = {'op': 'untrack', 'targets': rng.choice([[a], [a, b]])}
+        elif kind == 'untrack-restore':
+            cmd = {'op': 'untrack', 'targets': [a], 'restore_versions': f'../restored-{i}'}
+        elif kind == 'track-new':
+            h.append(W_(c2, Y)); cmd = T([c2, b])
+        elif kind == 'carryin':
+            h.append(W_(a, big('Z'))); cmd = CI([a])
+        elif kind == 'copy':
+            cmd = {'op': 'copy', 'src': a, 'dst': c2, 'method': 'copy'}
+        else:
+            cmd = {'op': 'move', 'src': a, 'dst': c2, 'method': rng.choice(['copy', 'hardlink'])}
+        h.append(dict(cmd, **fault))
+        # afterwards, without the fault: what is tracked can be restored, what was asked for can be done
+        h.append(RC([a, b, c2], force=False))
+        if kind.startswith('untrack'):
+            h.append(dict(cmd))
+        out.append((f'io-{kind}-{"efbig" if "fsize_limit" in fault else "tmp-blocked"}-{i}', cfg, h))
+    return out
+
+
+def run_fault_stream(chk, r, oracles, n):
+    from concurrent.futures import ThreadPoolExecutor
+    items = io_fault_histories(chk.seed, n)
+
+    def one(it):
+        name, cfg, h = it
+        try:
+            return r.run_history(name, cfg, h, stop_at_panic=False)
+        except Exception as ex:
+            return [{'i': -1, 'cmd': {'op': 'harness-error'}, 'rc': -1, 'err': repr(ex), 'abs': 'harness-error', 'pre': None, 'post': None, 'out': ''}]
+    with ThreadPoolExecutor(max_workers=12) as ex:
+        all_steps = list(ex.map(one, items))
+    st = chk.tie['streams'].setdefault('io-fault-histories (oracles only)', {'histories': 0, 'faulty_commands_failed': 0, 'faulty_commands_succeeded': 0})
+    for (name, cfg, h), steps in zip(items, all_steps):
+        chk.evaluations += 1
+        st['histories'] += 1
+        chk.nontrivial.add(name)
+        if steps and steps[0]['cmd']['op'] == 'harness-error':
+            chk.oracle_failure('harness error: ' + steps[0]['err'], {'history': [show_cmd(c) for c in h]}, None, signature={'kind': 'harness-error'}); continue
+        for s in steps:
+            if s['cmd'].get('fsize_limit') or s['cmd'].get('tmp_blocked'):
+                st['faulty_commands_failed' if s['rc'] != 0 else 'faulty_commands_succeeded'] += 1
+                chk.count(f"io-fault:{name.rsplit('-', 1)[0]}:rc={s['rc']}")
+        fails = []
+        for o in oracles:
+            fails += o(steps, cfg, h, include_failed=True) if o is o3_no_unsaved_loss else o(steps, cfg, h)
+        if o3_no_unsaved_loss not in oracles:
+            fails += o3_no_unsaved_loss(steps, cfg, h, include_failed=True)
+        seen = set()
+        for msg, sig in fails:
+            k = json.dumps(sig, sort_keys=True)
+            if k in seen: continue
+            seen.add(k)
+            chk.oracle_failure(msg, {'cfg': cfg, 'history': [show_cmd(c) + (f"   [ulimit -f {c['fsize_limit']}, SIGXFSZ ignored]" if c.get('fsize_limit') else '') +
+                                                             (f"   [directory at the temporary copy name of {c['tmp_blocked']}]" if c.get('tmp_blocked') else '') for c in h],
+                                     'io_fault_history': name}, None, signature=dict(sig, stream='io-fault'))
+
+
 # ------------------------------------------------------------------------------------------------ corpus
 
 def parse_model_line(line):
@@ -546,7 +661,7 @@ KNOWN_REPLAYS = [
 ]
 
 
-def run_property(chk, pid, oracles, want=('main',), restore=None, nq=280, nt=3000, maxlen=12, extra_corpus=(), before_finish=None):
+def run_property(chk, pid, oracles, want=('main',), restore=None, nq=280, nt=3000, maxlen=12, extra_corpus=(), before_finish=None, fault_stream=0):
     """oracles: list of step-level oracle functions; restore: dict of kwargs for restore_hook_factory or None"""
     quick = chk.tier == 'quick'
     model = chk.lean('XvcRepo', f'XvcRepo.Props.{pid}', exe='repomodel', extra_modules=['XvcRepo.Model', 'XvcRepo.Cache', 'XvcRepo.NoLoss', 'XvcRepo.RecGrow'])
@@ -675,6 +790,8 @@ def run_property(chk, pid, oracles, want=('main',), restore=None, nq=280, nt=300
                          'parallel on/off, content classes empty/LF/CRLF/mixed/binary/NUL at 7999|8000/large/UTF-8/duplicates, paths nested/no extension/space/non-ASCII/hidden); '
                          'after EVERY command the abstraction of the real repository (workspace kinds+bytes+mode+link target, cache objects+modes, records replayed from the JSON event files) '
                          'is compared with the Lean driver; a history is non-trivial when it has >= 2 xvc commands and a non-empty cache; distinct by command list')
+    if fault_stream:
+        run_fault_stream(chk, r, oracles, fault_stream)
     if before_finish:
         before_finish()
     return chk.finish()
